@@ -269,3 +269,19 @@ func (d *DDB) Query(table, keyCond string, names map[string]string, values map[s
 	d.S.Point(simrt.KSeam, "ddb.query.ret")
 	return out, nil
 }
+
+// RawItem returns the stored item.
+func (d *DDB) RawItem(table, id string, created int64) (Item, bool) {
+	it, ok := d.primary[table][id][strconv.FormatInt(created, 10)]
+	return it, ok
+}
+
+// PutRaw inserts an item directly (an independent writer).
+func (d *DDB) PutRaw(table string, it Item) {
+	id, c := it["Id"].S, it["Created"].S
+	if d.primary[table][id] == nil {
+		d.primary[table][id] = map[string]Item{}
+	}
+	d.primary[table][id][c] = it.clone()
+	d.writes = append(d.writes, ddbWrite{table, it.clone()})
+}
